@@ -21,7 +21,9 @@ from pyvc.api import (Module, Interface, Method, Iface, Inst, Int, Nat, Bool, St
 from contracts.common import implies, iff
 from contracts.C10_process import (SETTINGS, CommandExecutorI, OsServicesI, FsPathI, FileI, FileCtxI, StdinCtxI,
                                    executions, execution_results, timeout_of, environ_of, EXECUTE, _mk_hard_error,
-                                   DirFileSpaceI, ContentsI, StringSourceI, STRING_SOURCE)
+                                   DirFileSpaceI, ContentsI, StringSourceI, STRING_SOURCE, BOTH,
+                                   stdin_file_is, stdin_parts_of)
+import subprocess
 
 from exactly_lib.test_case.hard_error import HardErrorException
 from exactly_lib.util.process_execution.execution_elements import ProcessExecutionSettings
@@ -867,7 +869,7 @@ M.contract(P_PGX + ':Executor._app_env', inline=True,
            ensures={'the given settings object, unchanged': lambda self, settings, result:
            carries(result, self._os_services, settings)}, raises_only=())
 
-M.contract(P_PGX + ':_ExecutorWithoutTransformation.execute', inline=True,
+M.contract(P_PGX + ':_ExecutorWithoutTransformation.execute', inline=True, props=BOTH,
            params=dict(self=Inst(pgm_execution._ExecutorWithoutTransformation, _app_env=APP_ENV, _command=A_COMMAND,
                                  _atc_files=STD_FILES)), returns=Int,
            ensures={
@@ -879,7 +881,7 @@ M.contract(P_PGX + ':_ExecutorWithoutTransformation.execute', inline=True,
            raises={HardErrorException: {'ensures': lambda self, trace: uses_app_env(trace, self._app_env)}},
            raises_only=())
 
-M.contract(P_PGX + ':_ExecutorWithTransformation.execute', inline=True,
+M.contract(P_PGX + ':_ExecutorWithTransformation.execute', inline=True, props=BOTH,
            params=dict(self=Inst(pgm_execution._ExecutorWithTransformation, _app_env=APP_ENV, _program=PROGRAM,
                                  _resolved_transformer_for_program=Iface(TransformerI), _atc_files=STD_FILES,
                                  _string_source_factory=Inst(RootStringSourceFactory,
@@ -890,15 +892,32 @@ M.contract(P_PGX + ':_ExecutorWithTransformation.execute', inline=True,
                'stdin and stderr of the process are those of the ATC': lambda self, trace:
                executions(trace)[0][3].stdin is self._atc_files.stdin
                and executions(trace)[0][3].output.err is self._atc_files.output.err,
+               'C10: the transformed stdout of the process is what is written to the stdout of the ATC':
+                   lambda self, trace:
+                   [e[2][0] for e in trace if e[0] == 'contents.write_to'] == [self._atc_files.output.out],
                'exit code is the one the executor returned': lambda result, trace: result == execution_results(trace)[0],
            },
            raises={HardErrorException: {'ensures': lambda self, trace: uses_app_env(trace, self._app_env)}},
            raises_only=())
 
-M.contract(P_PGX + ':Executor.execute',
+def the_program(trace):
+    return [e[2] for e in trace if e[0] == PRIMITIVE + ':returned'][0]
+
+
+M.contract(P_PGX + ':Executor.execute', props=BOTH,
            params=dict(self=PGM_EXECUTOR, environment=ENV_POST_SDS, settings=SETTINGS, stdin=Opt(STRING_SOURCE),
-                       output=OUTPUT_FILES), returns=Int,
+                       output=OUTPUT_FILES), returns=Int, ghosts=dict(j=Int),
            ensures={
+               'C10: the process runs the command of the resolved program': lambda trace:
+               executions(trace)[0][1] is the_program(trace).command,
+               'C10: stdin of the process: the stdin parts of the program, then the act-phase stdin (or /dev/null)':
+                   lambda stdin, trace, j:
+                   stdin_file_is(executions(trace)[0][3].stdin, stdin_parts_of(stdin, the_program(trace).stdin), trace, j),
+               'C10: stderr of the process is the given stderr file; stdout is the given stdout file unless the program '
+               'has transformations (then the transformed text is written to it)': lambda output, trace:
+               executions(trace)[0][3].output.err is output.err
+               and (executions(trace)[0][3].output.out is output.out
+                    or [e[2][0] for e in trace if e[0] == 'contents.write_to'] == [output.out]),
                'one process start on the OS services, with the given settings object (its timeout) unchanged':
                    lambda self, settings, trace: len(executions(trace)) == 1
                                                  and all_use(trace, self._os_services.command_executor, settings),
